@@ -181,7 +181,7 @@ def containing_class(b, r):
     return None
 
 
-def corr(ctx, ncases=None, oracle_only=False):
+def corr(ctx, ncases=None, oracle_only=False, grain=True):
     res = Result()
     res.rule = ('random PBM grids (1-400 classes) x distribution kind x growth-field kind (incl. sign change of the growth rate inside a populated class) '
                 'x nucleation radius position x dt (multiples of the step limit, and multiples of the time in which a two-sided class empties: third pass active); '
@@ -378,7 +378,401 @@ def corr(ctx, ncases=None, oracle_only=False):
                     res.count('nonneg-class-checked')
                     if new[i] < -1e-9 * psd[i] - 1e-300:
                         res.violate('nonneg-under-limit', 'class %d negative after an Euler step at the model step limit' % i, desc, float(new[i]), 0.0); break
+    if grain:
+        corr_grain(ctx, res, oracle_only)
     vlib.finish_guard(res)
+    return res
+
+
+# ====================================================================== grain-growth part
+# GrainGrowthModel (kawin/precipitation/coupling/GrainGrowth.py, second anchor of C07) drives the same transport:
+# getdXdt -> pbm.getdXdtEuler, correctdXdt -> pbm.correctdXdtEuler, getDt -> pbm.getDTEuler(.., self.dissolutionIndex),
+# postProcess -> UpdatePBMEuler, adjustSizeClassesEuler(True), getDissolutionIndex, Normalize.  Real models are run with
+# wrappers set on the INSTANCE; every call of every iteration is captured and checked (oracle + Lean model).
+GRAIN_BINS_SMALL = [(12, 8, 16), (16, 8, 20), (20, 10, 24), (30, 20, 40), (24, 12, 40)]
+GRAIN_BINS_MEDIUM = [(60, 40, 80)]
+GRAIN_BINS_DEFAULT = [(150, 100, 200)]
+GRAIN_RATIO = 0.4          # "the stated fraction": default maxBinRatio of getDTEuler, which getDt does not override
+
+
+class _GrainStop(Exception):
+    pass
+
+
+class _Obj(object):
+    pass
+
+
+def gen_grain(rng, size='small', maxit=250):
+    bins = rng.choice({'small': GRAIN_BINS_SMALL, 'medium': GRAIN_BINS_MEDIUM, 'default': GRAIN_BINS_DEFAULT}[size])
+    cmin = 10 ** rng.uniform(-7.3, -6.7)
+    span = rng.choice([50, 100, 200])
+    M = 10 ** rng.uniform(-15, -12.5); gbe = rng.uniform(0.3, 1.0); alpha = rng.choice([1.0, 1.0, 0.5])
+    dist = rng.choice(['rayleigh', 'rayleigh', 'lognormal', 'bimodal', 'narrow-low', 'data'])
+    centre = rng.uniform(0.12, 0.35)
+    R0 = centre * cmin * span
+    tau = R0 * R0 / (alpha * M * gbe)                       # time scale of the growth law dR/dt ~ alpha*M*gbe/R
+    zener = None
+    if rng.random() < 0.4:
+        # constant pinning term through the public route computeZenerRadius(model): z = f^m / (K r) = 1/Rz
+        Rz = R0 * rng.choice([3.0, 8.0, 20.0])
+        f = 10 ** rng.uniform(-3, -1.5)
+        zener = dict(f=f, r=f * Rz / (4.0 / 3.0))
+    return dict(bins=list(bins), cmin=cmin, cmax=cmin * span, M=M, gbe=gbe, alpha=alpha, dist=dist, centre=centre,
+                width=rng.uniform(0.25, 0.5), s=rng.getrandbits(32), zener=zener,
+                maxdiss=rng.choice([1e-6, 1e-6, 1e-3, 1e-2, 0.05]),
+                solver=rng.choice(['euler', 'euler', 'rk4']),
+                hist=rng.choice(['load', 'load', 'load', 'two-solves', 'reset-before-solve']),
+                tsim=tau * rng.choice([0.3, 3.0, 1e6, 1e6]), maxit=maxit)
+
+
+def grain_model(cfg):
+    """a real GrainGrowthModel in the configured initial state"""
+    vlib.use_repo()
+    from kawin.precipitation.coupling.GrainGrowth import GrainGrowthModel
+    b = cfg['bins']
+    m = GrainGrowthModel(cfg['cmin'], cfg['cmax'], b[0], b[1], b[2])
+    m.setGrainBoundaryMobility(cfg['M']); m.setGrainBoundaryEnergy(cfg['gbe']); m.setAlpha(cfg['alpha'])
+    m.maxDissolution = cfg['maxdiss']
+    R0 = cfg['centre'] * cfg['cmax']; w = cfg['width']; cmax = cfg['cmax']
+    d = cfg['dist']
+    if d == 'data':
+        r = np.random.default_rng(cfg['s'])
+        m.LoadDistribution(R0 * np.exp(w * r.standard_normal(4000)))
+    else:
+        if d == 'rayleigh':
+            f = lambda R: (R / R0) * np.exp(-2 * (R / R0) ** 2) * (R < 0.75 * cmax)
+        elif d == 'lognormal':
+            f = lambda R: np.exp(-0.5 * (np.log(R / R0) / w) ** 2) / R * (R < 0.8 * cmax)
+        elif d == 'bimodal':
+            f = lambda R: (np.exp(-0.5 * ((R - 0.5 * R0) / (0.15 * R0)) ** 2) + 0.2 * np.exp(-0.5 * ((R - 1.6 * R0) / (0.2 * R0)) ** 2)) * (R < 0.8 * cmax)
+        else:   # 'narrow-low': populated only in the lowest part of the grid (the dissolution split of adjustSizeClassesEuler)
+            f = lambda R: np.exp(-0.5 * ((R - 0.08 * cmax) / (0.02 * cmax)) ** 2) * (R < 0.2 * cmax)
+        m.LoadDistributionFunction(f)
+    if cfg['hist'] == 'reset-before-solve':
+        m.reset()
+    if cfg['zener'] is not None:
+        pm = _Obj(); pm.phases = ['P']; pm.pData = _Obj(); pm.pData.n = 0
+        pm.pData.Ravg = np.array([[cfg['zener']['r']]]); pm.pData.volFrac = np.array([[cfg['zener']['f']]])
+        m.computeZenerRadius(pm)
+    return m
+
+
+def grain_run(cfg):
+    """runs the model; returns the captured calls [(kind, iteration, dict)], in call order"""
+    from kawin.solver import SolverType
+    m = grain_model(cfg)
+    rec = []
+    st = {'it': 0, 'stage': 0}
+    o_dxdt, o_corr, o_dt, o_post, o_adj = m.getdXdt, m.correctdXdt, m.getDt, m.postProcess, m.pbm.adjustSizeClassesEuler
+
+    def grid():
+        return dict(b=np.array(m.pbm.PSDbounds, dtype=float), size=np.array(m.pbm.PSDsize, dtype=float), bins=int(m.pbm.bins))
+
+    def getdXdt(t, x):
+        x0 = np.array(x[0], dtype=float)
+        out = o_dxdt(t, x)
+        st['stage'] += 1
+        rec.append(('dxdt', st['it'], dict(grid(), x=x0, x_after=np.array(x[0], dtype=float), growth=np.array(m._growthRate, dtype=float),
+                                           d=np.array(out[0], dtype=float), nf=np.array(m.pbm._netFlux, dtype=float), stage=st['stage'], z=float(m._z))))
+        return out
+
+    def getDt(dXdt):
+        if st['it'] >= cfg['maxit']:
+            raise _GrainStop()
+        dt = o_dt(dXdt)
+        rec.append(('dt', st['it'], dict(grid(), dt=float(dt), psd=np.array(m.pbm.PSD, dtype=float), growth=np.array(m._growthRate, dtype=float),
+                                         idx=int(m.dissolutionIndex), remaining=float(m.finalTime - m.time[-1]),
+                                         ratio_used=float(getattr(m.pbm, 'maxRatio', float('nan'))))))
+        return dt
+
+    def correctdXdt(dt, x, dXdt):
+        x0 = np.array(x[0], dtype=float); nf0 = np.array(m.pbm._netFlux, dtype=float)
+        o_corr(dt, x, dXdt)
+        rec.append(('corr', st['it'], dict(grid(), dt=float(dt), x=x0, x_after=np.array(x[0], dtype=float), nf0=nf0, growth=np.array(m._growthRate, dtype=float),
+                                           d=np.array(dXdt[0], dtype=float), nf=np.array(m.pbm._netFlux, dtype=float), stage=st['stage'])))
+
+    adj = {}
+    def adjust(*a, **k):
+        adj['pre'] = dict(grid(), psd=np.array(m.pbm.PSD, dtype=float))
+        r = o_adj(*a, **k)
+        adj['post'] = dict(grid(), psd=np.array(m.pbm.PSD, dtype=float))
+        return r
+
+    def postProcess(time, x):
+        xin = np.array(x[0], dtype=float)
+        adj.clear()
+        out = o_post(time, x)
+        rec.append(('post', st['it'], dict(grid(), xin=xin, pre=adj.get('pre'), adj=adj.get('post'), idx=int(m.dissolutionIndex),
+                                           psd=np.array(m.pbm.PSD, dtype=float))))
+        st['it'] += 1; st['stage'] = 0
+        return out
+
+    m.getdXdt, m.correctdXdt, m.getDt, m.postProcess = getdXdt, correctdXdt, getDt, postProcess
+    m.pbm.adjustSizeClassesEuler = adjust
+    solver = SolverType.EXPLICITEULER if cfg['solver'] == 'euler' else SolverType.RK4
+    try:
+        if cfg['hist'] == 'two-solves':
+            m.solve(0.4 * cfg['tsim'], solverType=solver)
+            m.solve(0.6 * cfg['tsim'], solverType=solver)
+        else:
+            m.solve(cfg['tsim'], solverType=solver)
+    except _GrainStop:
+        pass
+    return m, rec
+
+
+def ref_centres(b):
+    return [0.5 * (float(b[i]) + float(b[i + 1])) for i in range(len(b) - 1)]
+
+
+def ref_diss_index(psd, b, maxdiss):
+    """the model's own rule (getDissolutionIndex(maxDissolution, 0)) as an independent scalar loop over the CURRENT
+    distribution and grid: first class at which the cumulative particle volume exceeds maxDissolution x total volume
+    (0 when there is none).  Second value: a cumulative sum lies within rounding of the threshold (index not decidable)."""
+    R = ref_centres(b)
+    vol = [float(p) * r ** 3 for p, r in zip(psd, R)]
+    tot = math.fsum(vol)
+    thr = maxdiss * tot
+    first, c, tie = None, 0.0, False
+    for i, v in enumerate(vol):
+        c += v
+        if abs(c - thr) <= 1e-9 * abs(tot):
+            tie = True
+        if first is None and c > thr:
+            first = i
+    return (0 if first is None else first), tie
+
+
+def ref_growth(cfg, z, x, b):
+    """independent scalar form of the pinned growth law at the class boundaries; second value: a boundary lies within
+    rounding of a pinning threshold"""
+    R = ref_centres(b)
+    m1 = math.fsum(float(p) * r for p, r in zip(x, R)); m2 = math.fsum(float(p) * r * r for p, r in zip(x, R))
+    rcr = m2 / m1
+    k = cfg['alpha'] * cfg['M'] * cfg['gbe']
+    out, tie = [], False
+    for bj in b:
+        g = k * (1.0 / rcr - 1.0 / float(bj)); dz = k * z
+        up, lo = g + dz, g - dz
+        sc = k * max(1.0 / rcr, 1.0 / float(bj))
+        if abs(up) <= 1e-9 * sc or abs(lo) <= 1e-9 * sc:
+            tie = True
+        out.append(up if up < 0 else lo if lo > 0 else 0.0)
+    return out, tie
+
+
+def corr_grain(ctx, res, oracle_only=False, cfgs=None, lean_stride=None):
+    """grain-growth part: every iteration of real GrainGrowthModel runs"""
+    if cfgs is None:
+        rng = ctx.rng
+        if ctx.thorough:
+            cfgs = [gen_grain(rng, 'small', 1200) for _ in range(10)] + [gen_grain(rng, 'medium', 3000) for _ in range(3)] + \
+                   [gen_grain(rng, 'default', 8000) for _ in range(3)]
+            # the long default-bin history of the kind that hides a stale index (re-binned 187 -> 100 after ~1800 iterations)
+            cfgs.append(dict(bins=[150, 100, 200], cmin=1e-7, cmax=2e-5, M=1e-14, gbe=0.5, alpha=1.0, dist='rayleigh', centre=0.25,
+                             width=0.3, s=1, zener=None, maxdiss=1e-6, solver='euler', hist='load', tsim=3e5, maxit=8000))
+        else:
+            cfgs = [gen_grain(rng, 'small', 220) for _ in range(7)] + [gen_grain(rng, 'medium', 160)] + [gen_grain(rng, 'default', 60)]
+            # every run exercises: a large maxDissolution on a small grid (index changes at each re-binning), both iterators,
+            # and the public reset() before solve
+            cfgs[0].update(maxdiss=0.05, solver='euler', hist='load'); cfgs[1].update(maxdiss=1e-2, solver='rk4', hist='load')
+            cfgs[2].update(hist='reset-before-solve', maxdiss=1e-2, dist='rayleigh'); cfgs[3].update(dist='narrow-low')
+            cfgs[7].update(maxdiss=1e-3)
+    res.rule += (' | grain: real GrainGrowthModel runs (stand-alone solve, explicit Euler and RK4, 5 initial distributions incl. histogram data, mobility/energy/alpha, '
+                 'constant Zener pinning through computeZenerRadius, maxDissolution 1e-6..0.05, small/medium/default bin constraints so that the grid extends and re-bins, '
+                 'one or two solve calls, reset() before solve); every getdXdt/getDt/correctdXdt/postProcess call of every iteration captured on the instance; '
+                 'non-trivial = iteration with populated classes and non-zero growth; distinct = (run seed, iteration)')
+    lines, tags = [], []
+    for ci, cfg in enumerate(cfgs):
+        holder = {'case': dict(grain=cfg)}
+        ok, val = vlib.guarded(res, 'grain-run', holder, grain_run, cfg)
+        if not ok:
+            if res.violations and res.violations[-1]['key'].startswith('raises:'):
+                res.violations[-1]['case'] = dict(grain=cfg)
+            continue
+        m, rec = val
+        res.traces += 1
+        res.count('grain-run:' + cfg['solver']); res.count('grain-dist:' + cfg['dist']); res.count('grain-hist:' + cfg['hist'])
+        res.count('grain-zener' if cfg['zener'] else 'grain-no-zener')
+        res.count('grain-bins:%d/%d/%d' % tuple(cfg['bins']))
+        nit = 1 + max([it for _, it, _ in rec] or [0])
+        # grid events (by iteration: the grid seen by getDt of iteration k vs k-1)
+        events = set()
+        prev = None
+        for kind, it, r in rec:
+            if kind != 'dt':
+                continue
+            w = r['b'][1] - r['b'][0]
+            if prev is not None:
+                if abs(w - prev[1]) > 1e-9 * w:
+                    events.add(it); res.count('grain-event:re-binned' + ('-fewer' if r['bins'] < prev[0] else '-split'))
+                    if r['idx'] != prev[2]:
+                        res.count('grain-event:re-binned-index-changed')
+                elif r['bins'] != prev[0]:
+                    events.add(it); res.count('grain-event:extended')
+            prev = (r['bins'], w, r['idx'])
+        stride = lean_stride or (1 if nit <= 400 else 10)
+        def fed(it):
+            return it < 30 or it % stride == 0 or any(abs(it - e) <= 2 for e in events)
+        first_dt_after_reset = cfg['hist'] == 'reset-before-solve'
+        for kind, it, r in rec:
+            b, n = r['b'], r['bins']
+            desc = dict(grain=cfg, iteration=it, call=kind, bins=n, bounds=[float(b[0]), float(b[-1])])
+            if kind == 'dxdt':
+                x, growth, d, nf = r['x'], r['growth'], r['d'], r['nf']
+                nontriv = bool(x.max() > 0 and np.abs(growth).max() > 0)
+                res.case(('grain', cfg['s'], it, r['stage']), nontriv)
+                res.count('grain-call:getdXdt')
+                desc.update(stage=r['stage'], psd=x.tolist(), growth=growth.tolist())
+                if len(x) != n or len(growth) != n + 1 or len(d) != n:
+                    res.violate('grain-array-lengths', 'state/growth/dXdt length does not match the current grid', desc, [len(x), len(growth), len(d)], n); continue
+                if not np.array_equal(x, r['x_after']):
+                    res.violate('grain-call-modifies-arguments', 'getdXdt modified its distribution argument', desc)
+                rg, gtie = ref_growth(cfg, r['z'], x, b)
+                if gtie:
+                    res.near_tie_skipped += 1
+                else:
+                    kk = cfg['alpha'] * cfg['M'] * cfg['gbe']
+                    for j in range(n + 1):
+                        if not close(growth[j], rg[j], 1e-9, kk / float(b[j])):
+                            res.violate('grain-growth-field', 'growth rate at face %d is not the pinned growth law on the current grid and distribution' % j,
+                                        desc, float(growth[j]), rg[j]); break
+                rnf = ref_netflux(b, growth, x)
+                for j in range(n + 1):
+                    if not close(nf[j], rnf[j], 1e-9, 1e-300):
+                        res.violate('grain-upwind-face-flux', 'face %d flux is not the upwind adjacent-class flux' % j, desc, float(nf[j]), rnf[j]); break
+                if any(d[i] != nf[i] - nf[i + 1] for i in range(n)):
+                    res.violate('grain-nucleation-term', 'dXdt is not the difference of the two face fluxes (no nucleation in grain growth)', desc)
+                tot = float(np.sum(d)); need = rnf[0] - rnf[n]
+                if not close(tot, need, 1e-9, float(np.sum(np.abs(rnf))) * 2):
+                    res.violate('grain-budget', 'sum dXdt != flux(0) - flux(n) (no nucleation)', desc, tot, need)
+                if rnf[0] > 0 or rnf[n] < 0 or nf[0] > 0 or nf[n] < 0:
+                    res.violate('grain-ends-one-sided', 'grains enter through an end of the grid', desc, [float(nf[0]), float(nf[n])])
+                if fed(it) and not oracle_only:
+                    lines.append('pbm.dxdt %s %s %s %s %s' % (enc_list(b), enc_list(growth), enc_list(x), f2b(0.0), f2b(0.0)))
+                    tags.append(('dxdt', desc, r))
+            elif kind == 'dt':
+                psd, growth, dt, idx, rem = r['psd'], r['growth'], r['dt'], r['idx'], r['remaining']
+                res.count('grain-call:getDt')
+                desc.update(psd=psd.tolist(), growth=growth.tolist(), stored_index=idx, remaining=rem, maxDissolution=cfg['maxdiss'])
+                if len(psd) != n or len(growth) != n + 1:
+                    res.violate('grain-array-lengths', 'distribution/growth length does not match the current grid', desc, [len(psd), len(growth)], n); continue
+                if r['ratio_used'] != GRAIN_RATIO:
+                    res.violate('grain-dt-ratio', 'getDt used a fraction of the class width other than the stated one', desc, r['ratio_used'], GRAIN_RATIO)
+                cur, tie = ref_diss_index(psd, b, cfg['maxdiss'])
+                desc.update(current_index=cur)
+                if tie:
+                    res.near_tie_skipped += 1
+                else:
+                    sel = [abs(float(growth[j])) for j in range(cur, n) if psd[j] > 0]
+                    want = rem if (not sel or max(sel) == 0) else GRAIN_RATIO * (float(b[1]) - float(b[0])) / max(sel)
+                    res.count('grain-dt:index>0' if cur > 0 else 'grain-dt:index=0')
+                    if it in events:
+                        res.count('grain-dt:first-step-on-a-changed-grid')
+                    if not close(dt, want, 1e-12):
+                        key = 'grain-dt-limit'
+                        what = ('iteration %d: the proposed step is not %g*width/max|growth| over the left faces j >= dissolution index of populated classes of the '
+                                'CURRENT grid (stored index %d, index of the current distribution/grid %d, %d classes)' % (it, GRAIN_RATIO, idx, cur, n))
+                        if first_dt_after_reset and it == 0 and idx == 0 and cur != 0:
+                            key = 'grain-dt-limit:index-zero-after-reset'
+                            what = ('first step after GrainGrowthModel.reset(): reset() restores the loaded distribution but sets dissolutionIndex = 0 '
+                                    '(index of the restored distribution %d), so the proposed step is not the stated limit' % cur)
+                        res.violate(key, what, desc, dt, want)
+                    elif idx != cur:
+                        res.count('grain-dt:stored-index-differs-same-step')
+                first_dt_after_reset = False
+                if fed(it) and not oracle_only:
+                    lines.append('gg.getdt %s %s %s %d %s %s' % (enc_list(b), enc_list(growth), enc_list(psd), idx, f2b(rem), f2b(GRAIN_RATIO)))
+                    tags.append(('dt', desc, r))
+            elif kind == 'corr':
+                x, nf0, nfc, dc, dt = r['x'], r['nf0'], r['nf'], r['d'], r['dt']
+                res.count('grain-call:correctdXdt')
+                desc.update(stage=r['stage'], dt=dt, psd=x.tolist(), netFlux_before=nf0.tolist())
+                if len(x) != n or len(nf0) != n + 1 or len(dc) != n:
+                    res.violate('grain-array-lengths', 'state/flux length does not match the current grid', desc, [len(x), len(nf0), len(dc)], n); continue
+                if not np.array_equal(x, r['x_after']):
+                    res.violate('grain-call-modifies-arguments', 'correctdXdt modified its distribution argument', desc)
+                rcf, rface, active = ref_corrected([float(v) for v in nf0], [float(v) for v in x], dt)
+                if active:
+                    res.count('grain-third-pass-active')
+                if any(rcf[j] != float(nf0[j]) for j in range(n + 1)):
+                    res.count('grain-correction-active')
+                for j in range(n + 1):
+                    if not close(nfc[j], rcf[j], 1e-9, 1e-300):
+                        res.violate('grain-corrected-flux-not-reference', 'corrected flux of face %d is not the face-wise + total-outflow limited flux' % j,
+                                    desc, float(nfc[j]), rcf[j]); break
+                for j in range(n + 1):
+                    if nfc[j] * nf0[j] < 0 or abs(nfc[j]) > abs(nf0[j]) * (1 + 1e-12):
+                        res.violate('grain-correction-not-a-limiter', 'the correction reversed or increased the flux of face %d' % j, desc, float(nfc[j]), float(nf0[j])); break
+                if any(dc[i] != nfc[i] - nfc[i + 1] for i in range(n)):
+                    res.violate('grain-nucleation-term', 'corrected dXdt is not the difference of the two corrected face fluxes', desc)
+                totc = float(np.sum(dc)); needc = float(nfc[0] - nfc[n])
+                if not close(totc, needc, 1e-9, float(np.sum(np.abs(nfc))) * 2):
+                    res.violate('grain-budget-corrected', 'sum corrected dXdt != corrected end fluxes', desc, totc, needc)
+                if nfc[0] > 0 or nfc[n] < 0:
+                    res.violate('grain-ends-one-sided', 'grains enter through an end of the grid after correction', desc, [float(nfc[0]), float(nfc[n])])
+                newc = x + dt * dc
+                for i in range(n):
+                    if x[i] >= 0 and newc[i] < -1e-9 * x[i] - 1e-300:
+                        res.violate('grain-negative-after-correction', 'class %d negative after the update with the CORRECTED rate of change (holds %r, left %r, right %r per dt)'
+                                    % (i, float(x[i]), float(nfc[i] * dt), float(nfc[i + 1] * dt)), desc, float(newc[i]), 0.0); break
+                for i in range(n):
+                    out = max(-nfc[i], 0.0) + max(nfc[i + 1], 0.0)
+                    if x[i] >= 0 and out * dt > x[i] * (1 + 1e-9) + 1e-300:
+                        res.violate('grain-total-outflow', 'after correction class %d loses through both faces more than it holds' % i, desc, float(out * dt), float(x[i])); break
+                if fed(it) and not oracle_only:
+                    if cfg['solver'] == 'euler':
+                        lines.append('pbm.correct %s %s %s %s %s %s' % (enc_list(b), enc_list(r['growth']), enc_list(x), f2b(0.0), f2b(0.0), f2b(dt)))
+                        tags.append(('corr', desc, r))
+                    else:
+                        lines.append('pbm.correctnf %s %s 0 %s %s' % (enc_list(nf0), enc_list(x), f2b(0.0), f2b(dt)))
+                        tags.append(('corrnf', desc, r))
+            else:   # post
+                res.count('grain-call:postProcess')
+                a = r['adj']
+                if a is None or r['pre'] is None:
+                    res.violate('grain-post-order', 'postProcess did not call adjustSizeClassesEuler', desc); continue
+                desc.update(stored_index=r['idx'], bins_before=r['pre']['bins'], bins_after=a['bins'])
+                if fed(it) and not oracle_only and a['psd'].max() > 0:
+                    lines.append('gg.post %s %s %s %s %s' % (enc_list(r['xin']), enc_list(a['psd']), enc_list(a['b']), enc_list(a['size']), f2b(cfg['maxdiss'])))
+                    tags.append(('post', desc, r))
+    model = vlib.run_driver(PROP, lines) if (lines and ctx.driver_ok and not oracle_only) else None
+    if model is not None:
+        res.count('grain-lean-lines', len(lines))
+        for ans, (kind, desc, r) in zip(model, tags):
+            t = Toks(ans)
+            if not t.ok:
+                res.disagree('grain %s model error' % kind, desc, 'ok', t.err); continue
+            if kind == 'dxdt':
+                mk = t.nat(); mnf = t.flts(); md = t.flts()
+                sc = float(np.abs(r['nf']).max())
+                if mk != 0 or not vlib.all_close(r['nf'], mnf, 1e-9, 1e-300) or not vlib.all_close(r['d'], md, 1e-9, sc * 1e-3):
+                    res.disagree('grain getdXdt', desc, r['d'].tolist(), md)
+            elif kind == 'dt':
+                if not close(r['dt'], t.flt(), 1e-12):
+                    res.disagree('grain getDt', desc, r['dt'], ans)
+            elif kind in ('corr', 'corrnf'):
+                if kind == 'corr':
+                    t.nat()
+                mnfc = t.flts(); mdc = t.flts()
+                sc = float(np.abs(r['nf0']).max())
+                if any(v < 0 for v in r['x']):
+                    res.near_tie_skipped += 1      # rounding-negative stage state: outside psd >= 0
+                elif not vlib.all_close(r['nf'], mnfc, 1e-9, 1e-300) or not vlib.all_close(r['d'], mdc, 1e-9, sc * 1e-3):
+                    res.disagree('grain correctdXdt', desc, r['nf'].tolist(), mnfc)
+            else:
+                midx = t.nat(); mtr = t.flts(); mst = t.flts(); midx2 = t.nat()
+                a = r['adj']
+                _, tie = ref_diss_index(a['psd'], a['b'], desc['grain']['maxdiss'])
+                if not vlib.all_close(r['pre']['psd'], mtr, 0.0, 0.0):
+                    res.disagree('grain postProcess: distribution handed to adjustSizeClassesEuler is not the truncated new state', desc, r['pre']['psd'].tolist(), mtr)
+                if not vlib.all_close(r['psd'], mst, 1e-9, 0.0):
+                    res.disagree('grain postProcess: stored distribution is not the normalized adjusted one', desc, r['psd'].tolist(), mst)
+                if tie:
+                    res.near_tie_skipped += 1
+                elif midx != r['idx'] or midx2 != r['idx']:
+                    res.disagree('grain postProcess: stored dissolution index is not the index of the adjusted (stored) grid', desc, r['idx'], [midx, midx2])
     return res
 
 
@@ -389,6 +783,13 @@ def search(ctx, broken):
 
 def replay(ctx, entry):
     c = entry['violation']['case']
+    if 'grain' in c:
+        # a grain-growth run is deterministic in its configuration: re-run it and evaluate the oracle on every iteration
+        ctx.driver_ok = False
+        r = corr_grain(ctx, Result(), oracle_only=True, cfgs=[c['grain']])
+        for v in r.violations:
+            print('  ', v['key'], v['what'], v['observed'], v['required'])
+        return not r.violations
     case = {k: c[k] for k in ('n', 'cmin', 'cmax', 'dist', 'gro', 'nuc', 's', 'dtmul', 'ratio', 'maxdiss')}
     for k, dflt in (('hist', 'fresh'), ('dtkind', 'limit'), ('dmult', 1.0)):
         case[k] = c.get(k, dflt)
@@ -400,7 +801,7 @@ def replay(ctx, entry):
     try:
         globals()['gen_case'] = lambda rng: case
         ctx.driver_ok = False
-        r = corr(ctx, ncases=1, oracle_only=True)
+        r = corr(ctx, ncases=1, oracle_only=True, grain=False)
     finally:
         globals()['gen_case'] = saved
     for v in r.violations:
